@@ -73,12 +73,12 @@ func reassembleAll(ms []otr3.ValidMessage) [][]byte {
 }
 
 type schedSide struct {
-	p        *party
-	expect   [][]byte // texts the peer sent, not yet delivered here (in order)
-	acceptedKeys map[string]string // MAC keys (hex) under which this side accepted a message -> pair "o:t"
-	pendingDisclose map[string]bool // accepted keys whose pair has been retired and that must be in the next outgoing data message
-	disclosed map[string]bool
-	seenWire [][]byte // whole data messages delivered to this side (for replay)
+	p               *party
+	expect          [][]byte          // texts the peer sent, not yet delivered here (in order)
+	acceptedKeys    map[string]string // MAC keys (hex) under which this side accepted a message -> pair "o:t"
+	pendingDisclose map[string]bool   // accepted keys whose pair has been retired and that must be in the next outgoing data message
+	disclosed       map[string]bool
+	seenWire        [][]byte // whole data messages delivered to this side (for replay)
 }
 
 type schedLink struct {
